@@ -244,6 +244,12 @@ def main():
             "def checkerlang_secure_mode() FALSE; %(e)s", "for [checkerlang_secure_mode, z] in [[FALSE, 1]] do %(e)s end", "def f(checkerlang_secure_mode...) do %(e)s end; f(FALSE)",
             "eval('def checkerlang_secure_mode = FALSE'); %(e)s", "require c09flag; %(e)s", "set_secure_mode(FALSE); %(e)s", "bind_native('checkerlang_secure_mode'); %(e)s",
             "def g() do def checkerlang_secure_mode = FALSE; %(e)s end; g()",
+            # the names of the insecure natives are already taken (by values, parameters, aliases of harmless natives) when bind_native is called
+            "def file_input = NULL; def execute = NULL; def list_dir = NULL; def ld = 1; def make_dir = NULL; def file_delete = NULL; %(e)s",
+            "(fn(file_input, execute, list_dir, ld, make_dir, file_delete) do %(e)s end)(1, 2, 3, 4, 5, 6)",
+            "bind_native('identity', 'file_input'); bind_native('identity', 'execute'); bind_native('identity', 'list_dir'); bind_native('identity', 'ld'); "
+            "bind_native('identity', 'make_dir'); bind_native('identity', 'file_delete'); %(e)s",
+            "def file_input(p) p; def execute(a, b) a; def make_dir(p) p; def file_delete(p) p; def list_dir(p) p; %(e)s",
             # destructuring assignment with the flag at every position, a source that is too short (NULL is assigned), a set as source
             "def x = 0; [x, checkerlang_secure_mode] = [0, FALSE]; %(e)s", "def x = 0; def y = 0; [x, y, checkerlang_secure_mode] = [0, 0, FALSE]; %(e)s",
             "def x = 0; [x, checkerlang_secure_mode] = [1]; %(e)s", "def x = 0; [x, checkerlang_secure_mode] = <<FALSE>>; %(e)s", "def x = 0; [checkerlang_secure_mode, x] = [FALSE, 0]; %(e)s",
